@@ -4,6 +4,7 @@ import Driver.BusDrv
 import Driver.StoreDrv
 import Driver.StateDrv
 import Driver.NamesDrv
+import Driver.ConcDrv
 open Driver
 
 def runDomain (dom : String) (lines : Array String) : Array String :=
@@ -14,6 +15,7 @@ def runDomain (dom : String) (lines : Array String) : Array String :=
   | "state" => StateDrv.runCase lines
   | "wirecheck" => StateDrv.runWire lines
   | "names" => NamesDrv.runCase lines
+  | "conc" => ConcDrv.runCase lines
   | _ => #["unknown-domain " ++ dom]
 
 def main (args : List String) : IO UInt32 := do
